@@ -108,7 +108,7 @@ def main():
                 print(p.stderr[-1500:])
             shutil.rmtree(evd, ignore_errors=True)
         meta2["checks_run"] = detected
-        meta2["detected_by"] = sorted(k for k, v in detected.items() if v["rc"] == 1)
+        meta2["detected_by"] = sorted(k for k, v in detected.items() if v["rc"] == 1 and v.get("violations", 0) > 0)
         json.dump(meta2, open(os.path.join(dst, "meta.json"), "w"), indent=1)
         return 0
     finally:
